@@ -274,69 +274,25 @@ func checkC17(p *Prog, r *Report) {
 							bounded = true
 						}
 					}
-					// len(p) of a helper's parameter: every call site passes x[:l] with l bounded
-					if lc, isCall := core.(*ssa.Call); isCall && !bounded && unitFn != wm {
+					// len(x) of a value whose length has a constant upper bound through
+					// helper results and parameters (writeFrame(tag, chunk) with
+					// chunk, p = splitAt(p, maxMessageSize))
+					if lc, isCall := core.(*ssa.Call); isCall && !bounded {
 						if bi, isB := lc.Common().Value.(*ssa.Builtin); isB && bi.Name() == "len" && len(lc.Common().Args) == 1 {
-							if prm, isP := unwrapLocal(lc.Common().Args[0]).(*ssa.Parameter); isP {
-								idx := -1
-								for i, pp := range unitFn.Params {
-									if pp == prm {
-										idx = i
+							x := unwrapLocal(lc.Common().Args[0])
+							if ub, okUB := gEB.ubLen(x, nil, 0); okUB && ub <= maxMsg && ub <= 0xFFFFFF {
+								// the payload written is x itself
+								match := false
+								allCalls(unitFn, func(w ssa.CallInstruction) {
+									if w.Common().IsInvoke() && w.Common().Method.Name() == "Write" && len(w.Common().Args) == 1 && unwrapLocal(w.Common().Args[0]) == x {
+										match = true
 									}
+								})
+								if match {
+									r.Cond(true, "C17/EMIT-BOUNDED", "WriteMsg header", p.Pos(instrPos(c)), "")
+									return
 								}
-								sitesOK, nSites := true, 0
-								for _, e := range gEB.In[unitFn] {
-									if isTestSupport(pkgPathOfFunc(e.From)) {
-										continue
-									}
-									cs, isCS := e.Site.(ssa.CallInstruction)
-									if !isCS || e.Escape || cs.Common().StaticCallee() != unitFn || idx < 0 || idx >= len(cs.Common().Args) {
-										sitesOK = false
-										continue
-									}
-									nSites++
-									sl, isSl := cs.Common().Args[idx].(*ssa.Slice)
-									okSite := false
-									if isSl && sl.High != nil {
-										hi := stripConv(sl.High)
-										if k, isK := constInt(hi); isK && k <= maxMsg && k <= 0xFFFFFF {
-											okSite = true
-										}
-										if call, isC := hi.(*ssa.Call); isC {
-											if bi, isB := call.Common().Value.(*ssa.Builtin); isB && bi.Name() == "min" {
-												for _, a := range call.Common().Args {
-													if k, isK := constInt(a); isK && k <= maxMsg && k <= 0xFFFFFF {
-														okSite = true
-													}
-												}
-											}
-										}
-										for _, f := range cmpFactsFor(hi, cs) {
-											if k, isK := constInt(f.other); isK && k <= 0xFFFFFF && (f.op == token.LEQ || f.op == token.LSS) {
-												okSite = true
-											}
-										}
-									}
-									if !okSite {
-										sitesOK = false
-									}
-								}
-								if sitesOK && nSites > 0 {
-									bounded = true
-									// the payload written is the parameter itself
-									match := false
-									allCalls(unitFn, func(w ssa.CallInstruction) {
-										if w.Common().IsInvoke() && w.Common().Method.Name() == "Write" && len(w.Common().Args) == 1 && unwrapLocal(w.Common().Args[0]) == ssa.Value(prm) {
-											match = true
-										}
-									})
-									if match {
-										r.Cond(true, "C17/EMIT-BOUNDED", "WriteMsg header", p.Pos(instrPos(c)), "")
-										return
-									}
-									bounded = false
-									why = "the payload written after the header is not the slice of exactly the encoded length"
-								}
+								why = "the payload written after the header is not the slice of exactly the encoded length"
 							}
 						}
 					}
@@ -604,4 +560,134 @@ func wrapsTypeShallow(v ssa.Value, obj types.Object) bool {
 	v = stripConv(v)
 	pt, ok := v.Type().(*types.Pointer)
 	return ok && types.Identical(pt.Elem(), obj.Type())
+}
+
+// ---------------------------------------------------------------------------
+// constant upper bounds of integers and slice lengths, through helper results
+// and parameters (no solver: constants, min(), len(), slicing)
+
+type ubCtx struct {
+	m     map[*ssa.Parameter]ssa.Value
+	outer *ubCtx
+}
+
+func (g *ModGraph) ubParam(prm *ssa.Parameter, ctx *ubCtx, depth int, eval func(ssa.Value, *ubCtx, int) (int64, bool)) (int64, bool) {
+	if ctx != nil {
+		if a, ok := ctx.m[prm]; ok {
+			return eval(a, ctx.outer, depth+1)
+		}
+	}
+	fn := prm.Parent()
+	idx := -1
+	for i, pp := range fn.Params {
+		if pp == prm {
+			idx = i
+		}
+	}
+	best, n := int64(0), 0
+	for _, e := range g.In[fn] {
+		if isTestSupport(pkgPathOfFunc(e.From)) {
+			continue
+		}
+		cs, isCS := e.Site.(ssa.CallInstruction)
+		if !isCS || e.Escape || cs.Common().IsInvoke() || cs.Common().StaticCallee() != fn || idx < 0 || idx >= len(cs.Common().Args) {
+			return 0, false
+		}
+		ub, ok := eval(cs.Common().Args[idx], nil, depth+1)
+		if !ok {
+			return 0, false
+		}
+		best = max(best, ub)
+		n++
+	}
+	return best, n > 0
+}
+
+func (g *ModGraph) ubInt(v ssa.Value, ctx *ubCtx, depth int) (int64, bool) {
+	if depth > 6 {
+		return 0, false
+	}
+	v = stripConv(unwrapLocal(v))
+	if k, ok := constInt(v); ok {
+		return k, true
+	}
+	switch x := v.(type) {
+	case *ssa.Call:
+		if bi, ok := x.Common().Value.(*ssa.Builtin); ok {
+			switch bi.Name() {
+			case "min":
+				best, known := int64(0), false
+				for _, a := range x.Common().Args {
+					if ub, ok := g.ubInt(a, ctx, depth+1); ok && (!known || ub < best) {
+						best, known = ub, true
+					}
+				}
+				return best, known
+			case "len":
+				return g.ubLen(x.Common().Args[0], ctx, depth+1)
+			}
+		}
+	case *ssa.Parameter:
+		return g.ubParam(x, ctx, depth, g.ubInt)
+	}
+	return 0, false
+}
+
+func (g *ModGraph) ubLen(v ssa.Value, ctx *ubCtx, depth int) (int64, bool) {
+	if depth > 6 {
+		return 0, false
+	}
+	v = unwrapLocal(v)
+	switch x := v.(type) {
+	case *ssa.Slice:
+		if x.High != nil {
+			return g.ubInt(x.High, ctx, depth+1)
+		}
+		return g.ubLen(x.X, ctx, depth+1)
+	case *ssa.Parameter:
+		return g.ubParam(x, ctx, depth, g.ubLen)
+	case *ssa.Extract:
+		call, ok := x.Tuple.(*ssa.Call)
+		if !ok {
+			return 0, false
+		}
+		return g.ubResult(call, x.Index, ctx, depth)
+	case *ssa.Call:
+		return g.ubResult(x, 0, ctx, depth)
+	}
+	return 0, false
+}
+
+// ubResult: the bound of the idx-th result of a direct call to a module
+// function, evaluated in the callee with its parameters bound to the call's
+// arguments.
+func (g *ModGraph) ubResult(call *ssa.Call, idx int, ctx *ubCtx, depth int) (int64, bool) {
+	callee := call.Common().StaticCallee()
+	if callee == nil || callee.Blocks == nil || !isModFunc(callee) {
+		return 0, false
+	}
+	inner := &ubCtx{m: map[*ssa.Parameter]ssa.Value{}, outer: ctx}
+	for i, pp := range callee.Params {
+		if i < len(call.Common().Args) {
+			inner.m[pp] = call.Common().Args[i]
+		}
+	}
+	best, n := int64(0), 0
+	for _, b := range callee.Blocks {
+		ret, ok := lastInstr(b).(*ssa.Return)
+		if !ok {
+			continue
+		}
+		res := retResults(ret)
+		if idx >= len(res) {
+			return 0, false
+		}
+		ub, ok := g.ubLen(res[idx], inner, depth+1)
+		if !ok {
+			return 0, false
+		}
+		best = max(best, ub)
+		n++
+	}
+	return best, n > 0
 }
